@@ -267,23 +267,42 @@ fn lc_cmp_strict_weak_order() {
     std::mem::forget((a, b, c));
 }
 
-/// semantic part of the listing statement: a resumed lifecycle never sorts before the one it resumes; without any
-/// resume link the order is the start-time order.
+/// The listing itself (generated `listing_sort` = the real statements of get_sorted_lifecycles_as_vec): N records in
+/// ARBITRARY input order (evmap iteration order is unspecified). The result contains each lifecycle exactly once,
+/// never places a resumed lifecycle before the one it resumes and, when no record has a resume link into the set,
+/// is ordered by start time.
 #[kani::proof]
-fn lc_cmp_resume_after_origin() {
-    use std::cmp::Ordering::*;
-    let (a, b, _c) = cmp_setup();
-    if let Some(r) = &b.resume_lc {
-        if r.id == a.id {
-            assert!(extracted_cmp(&a, &b) == Less);
-            assert!(extracted_cmp(&b, &a) == Greater);
-        }
+#[kani::unwind(8)]
+fn lc_listing_n3() {
+    let (a, b, c) = cmp_setup();
+    let recs = [&a, &b, &c];
+    let p: [usize; 3] = kani::any();
+    kani::assume(p[0] < 3 && p[1] < 3 && p[2] < 3 && p[0] != p[1] && p[1] != p[2] && p[0] != p[2]);
+    let mut v: Vec<&Lifecycle> = Vec::with_capacity(3);
+    v.push(recs[p[0]]);
+    v.push(recs[p[1]]);
+    v.push(recs[p[2]]);
+    let out = listing_sort(v);
+    assert_eq!(out.len(), 3);
+    // each exactly once
+    assert!(out[0].id != out[1].id && out[1].id != out[2].id && out[0].id != out[2].id);
+    let is_in = |id: u32| id == a.id || id == b.id || id == c.id;
+    assert!(is_in(out[0].id) && is_in(out[1].id) && is_in(out[2].id));
+    // resumed never before its origin
+    let resumes = |x: &Lifecycle, y: &Lifecycle| x.resume_lc.as_ref().map_or(false, |r| r.id == y.id);
+    assert!(!resumes(out[0], out[1]));
+    assert!(!resumes(out[0], out[2]));
+    assert!(!resumes(out[1], out[2]));
+    // without resume links into the set: start-time order
+    let linked = |x: &Lifecycle| x.resume_lc.as_ref().map_or(false, |r| is_in(r.id));
+    if !linked(&a) && !linked(&b) && !linked(&c) {
+        assert!(out[0].start_time <= out[1].start_time && out[1].start_time <= out[2].start_time);
     }
-    if a.resume_lc.is_none() && b.resume_lc.is_none() {
-        assert!(extracted_cmp(&a, &b) == a.start_time.cmp(&b.start_time));
-    }
-    kani::cover!(b.resume_lc.is_some() && b.resume_lc.as_ref().unwrap().id == a.id);
-    std::mem::forget((a, b, _c));
+    kani::cover!(linked(&c) && resumes(&c, &b) && c.start_time < b.start_time, "resumed record with the earlier start");
+    kani::cover!(linked(&c) && linked(&b), "chain of two resumes");
+    kani::cover!(!linked(&a) && !linked(&b) && !linked(&c) && p[0] == 2, "no links, shuffled input");
+    std::mem::forget(out);
+    std::mem::forget((a, b, c));
 }
 
 // ---------------------------------------------------------------------------------------------
